@@ -2,7 +2,7 @@
 from vf.gen import Plan, Module
 from props.fam_model import MEMBERS, member_module, LOAD_PARAMS, LOAD_ARGS, load_slices
 
-QUICK = ["omit_stub", "plain", "rename", "nested", "camel", "skip_gt_only", "map_gt_style", "ellipsis_style", "pairs_map", "stack_override", "stack_style",
+QUICK = ["omit_stub", "plain", "rename", "nested", "camel", "skip_gt_only", "map_gt_style", "ellipsis_style", "pairs_map", "stack_override", "stack_style", "stack_ellipsis", "map_list_ellipsis",
          "forbid_rename", "forbid_nested", "kwargs", "rest_field_rename", "saturator", "omit_one", "omit_nested", "as_list_forbid", "list_gaps",
          "list_in_dict", "dict_in_list", "no_trim", "map_none", "req_two_crowns", "req_three_levels"]
 
@@ -102,6 +102,12 @@ def func_mapper(a, b, c):
     mx.ob("func_mapper_ellipsis", "a: int, b: int, c: int", "return func_mapper(a, b, c)", timeout=tmo,
           family="function mappers returning paths with Ellipsis (after trim / name_style / as_list)", bounds="symbolic ints; loader and dumper; 3 debug modes")
     mods.append(mx)
+    # optional OUTPUT fields (TypedDict NotRequired keys) are written to their path whenever they are present, whatever their value: the round-trip obligation of C01
+    from props.C01 import build as build_c01
+    for m01 in build_c01(tier, seed).modules:
+        if m01.key == "c01_omit":
+            m01.obs = [o for o in m01.obs if o.name in ("typeddict_optional_keys_rt", "first_optional_rt")]
+            mods.append(m01)
     return Plan("C03", mods, assumptions=["field loaders/dumpers are stubs honouring the loader contract (assume-guarantee)",
                                           "nested unknown keys are compared after pruning empty sub-mappings (the docs fix names, not the nesting of empties)"],
                 bounds={"fields": "3", "path depth": "<=3", "extra keys": "<=3"},
